@@ -28,5 +28,7 @@ def run(chk):
     executor_contracts.item_in_child_context(chk, "C16")     # a branch is a child context of its own: no batch-level summary generator on it
     from . import context_contracts
     context_contracts.batch_summary_wiring(chk, "C16")
+    from . import batch_accessors
+    batch_accessors.summary_generators(chk, "C16")            # the default summary is small whatever the result: counts and enum values only
     from . import c15
     c15.serialized_text_is_ascii(chk, "C16")                  # the 256 KB test counts characters: the default serializer's text is ASCII        # ... it belongs to the child handler of the whole map / parallel
